@@ -774,6 +774,7 @@ func main() {
 	c.Rule = "single: a generated set of 1-6 objects a Provider (CRDs of several groups, some with Webhook conversion, webhook configurations) or Configuration (XRDs, Compositions) installs, each with a pre-existing cluster object of class absent / uncontrolled / plain-owned / already controlled by this revision / controlled by the previous revision / released by the previous revision / controlled by another package's revision / controlled by a foreign owner / rejected by scripted admission (absent or existing), established once as active or inactive revision and once more; seq: rev1 installs S1, rev2 ships S2 (drops, keeps, adds; optionally one un-takeable rev2-only object), then upgrade and rollback (thorough: sometimes a third phase) with the reconciles of the two revisions run in each of 8 programs per phase (all 6 orders of deactivate / activate / inactive-establish-after-status-loss, plus the two orders without the status loss), the GC actor after every step, another package deleted mid-way; fault: ServerError / Timeout / ErrorAfter at every call index of Establish (single cases) and of ReleaseObjects / Establish inside an upgrade, then a clean retry. distinct = generated case (+ programs, + fault position); non-trivial = >= 2 objects of which >= 1 pre-exists with an owner, or the history has an activate->deactivate transition."
 	c.Rule += " intruder: for every call index k of an Establish (single cases and the status-lost inactive Establish) a third party deletes one of the revision's objects right before call k; verdict from the per-write monitors, then a clean retry. Sequences: upgrade, rollback and (half of them) roll forward again."
 	c.Rule += " " + "Same-named objects of different kinds in the reconciler sequences (every manifest referenced); packages of 150-270 CRDs with one un-takeable object (a refused Establish writes nothing)."
+	c.Rule += " " + "Revisions created by the real package manager for short, dotted, 74- and 100-character package names; a deactivated revision reconciled from a cache that still shows it Active."
 	c.Assumptions = []string{
 		"sim implements the apiserver rules of DESIGN.md 2.2 (dry-run fully validated and not persisted, two controller references rejected, GC by owner UID)",
 		"the revision passed to the establisher carries its GroupVersionKind, as objects read through controller-runtime's cache do",
